@@ -343,7 +343,10 @@ def hostile_palette():
         for d in (-2, -1, 0, 1):
             out.append(('int', 2**b + d))
             out.append(('int', -2**b + d))
+    # ... and ints beyond CPython's 4300-digit limit for str(): an error
+    # message that embeds the number must not turn TypeError into ValueError
     out += [('int', 2**100), ('int', -2**100), ('int', 2**2000),
+            ('hugeint', 1 << 20000), ('hugeint', -(10 ** 5000)),
             ('int', 0), ('int', 1), ('int', -1), ('int', 5)]
     out += [('bool', True), ('bool', False)]
     for fl in (0.0, 1.0, -1.0, 2.5, 0.1, 1e39, -1e39, 1e300, 3.4028235e38,
